@@ -431,11 +431,14 @@ func (ts *TermStore) Select(a, i *Term) *Term {
 		if cur.args[1] == i {
 			return cur.args[2]
 		}
-		if cur.args[1].kind == kLeaf && i.kind == kLeaf && isLiteral(cur.args[1].op) && isLiteral(i.op) {
+		if ts.Distinct(cur.args[1], i) {
 			cur = cur.args[0]
 			continue
 		}
 		break
+	}
+	if cur.kind == kApp && cur.op == "ite" && arrIteLeaves(cur, 0) <= 6 {
+		return ts.Ite(cur.args[0], ts.Select(cur.args[1], i), ts.Select(cur.args[2], i))
 	}
 	return ts.App("select", e, cur, i)
 }
@@ -606,4 +609,44 @@ func termSize(roots []*Term) int {
 		rec(r)
 	}
 	return len(seen)
+}
+
+// isFreshRef: a reference produced by an allocation site (distinct from every
+// reference that existed before it).
+func isFreshRef(t *Term) bool { return t.kind == kLeaf && strings.HasPrefix(t.op, "ref_") }
+
+// Distinct: syntactic proof that two index terms differ.
+func (ts *TermStore) Distinct(a, b *Term) bool {
+	if a == b {
+		return false
+	}
+	if a.kind == kLeaf && b.kind == kLeaf && isLiteral(a.op) && isLiteral(b.op) {
+		return true
+	}
+	if a.sort != SInt || b.sort != SInt {
+		return false
+	}
+	if isFreshRef(a) && isFreshRef(b) {
+		return true
+	}
+	// a fresh reference differs from every reference-valued term that existed
+	// before the allocation (terms are numbered in creation order) and from nil
+	if isFreshRef(a) && (b.id < a.id || (b.kind == kLeaf && b.op == "0")) && !b.open {
+		return true
+	}
+	if isFreshRef(b) && (a.id < b.id || (a.kind == kLeaf && a.op == "0")) && !a.open {
+		return true
+	}
+	return false
+}
+
+func arrIteLeaves(t *Term, n int) int {
+	if n > 32 {
+		return n
+	}
+	if t.kind == kApp && t.op == "ite" {
+		n = arrIteLeaves(t.args[1], n)
+		return arrIteLeaves(t.args[2], n)
+	}
+	return n + 1
 }
